@@ -6,7 +6,8 @@ from the property text and judged through docker's reference option grammar — 
 using the model's evaluation:
 
 * **M1** every container started detached (`docker run … --detach … --name N …`) is later force-removed
-  (`docker rm … N … --force`);
+  (`docker rm … N … --force`); **M1x** (the same clause read as strictly as the one for the image): the first later
+  `docker rm` naming N is forced, and after it no command names N again — removed exactly once, after its last use;
 * **M2** the build's image and both of its cache volumes are force-removed exactly once, by `docker rmi <img> --force`
   and `docker volume remove <img>.build-cache <img>.launch-cache --force`, and no later command mentions the image;
 * **M3** nothing foreign is removed: every container removed was named by an earlier `docker run` of this log, every
@@ -69,6 +70,28 @@ def m1 : List Cmd → Bool
     (match startsDetached c with
      | some n => rest.any (forceRemovesContainer n)
      | none => true) && m1 rest
+
+/-- the command is a docker command with `n` as one of its words (docker takes container names as separate arguments) -/
+def namesContainer (n : Word) (c : Cmd) : Bool :=
+  match c.prog with
+  | .docker => c.args.contains n
+  | .pack => false
+
+/-- the first `docker rm` that names `n` is forced, and nothing after it names `n` -/
+def removedOnceAfterLastUse (n : Word) : List Cmd → Bool
+  | [] => false
+  | c :: rest =>
+    match containerRemoval c with
+    | some r => if r.names.contains n then r.force && rest.all (fun d => !namesContainer n d) else removedOnceAfterLastUse n rest
+    | none => removedOnceAfterLastUse n rest
+
+/-- **M1x** -/
+def m1x : List Cmd → Bool
+  | [] => true
+  | c :: rest =>
+    (match startsDetached c with
+     | some n => removedOnceAfterLastUse n rest
+     | none => true) && m1x rest
 
 def isInfix (pat : Word) : Word → Bool
   | [] => pat.isEmpty
